@@ -88,6 +88,7 @@ type Contract struct {
 	RvWrites []string            // assumed effect on reflect storage (ghost memory RV): roots written; nil = unknown
 	AtCall   map[string][]Clause // extra call-site obligations, by callee key
 	DynPure  bool     // stated assumption: function values called by this function do not modify library state
+	CheckPre []string // sweep functions: callees whose preconditions are checked at the call sites
 	Sweep    bool     // zero-annotation C07 sweep: only run-time-error (and invariant) obligations; callee preconditions assumed
 	NoRteKinds []string // run-time-error kinds not claimed for this function
 	NoRte    bool     // no run-time-error obligations at all for this function (only its contract clauses are claimed)
@@ -249,6 +250,10 @@ func (sp *Spec) loadFile(path string, pkg string) error {
 			}
 		case "dynpure":
 			cur.DynPure = true
+		case "checks-pre":
+			// checks-pre <callee> ...: in a sweep function, the preconditions of these callees are obligations at
+			// their call sites (they are assumed otherwise)
+			cur.CheckPre = append(cur.CheckPre, strings.Fields(rest)...)
 		case "sweep":
 			cur.Sweep = true
 			cur.NoNil = true
